@@ -343,6 +343,12 @@ impl Inscription {
       .unwrap_or_default()
   }
 
+  /// Length of the (decompressed) properties CBOR, if it is accepted (verification hook).
+  #[cfg(feature = "verif")]
+  pub fn verif_properties_cbor_len(&self) -> Option<usize> {
+    self.properties_cbor().map(|cbor| cbor.len())
+  }
+
   fn properties_cbor(&self) -> Option<Cow<[u8]>> {
     let value = self.properties.as_deref()?;
 
